@@ -82,6 +82,7 @@ TABLE = {
     "dim": ("DIM", "--dim", "value"), "pa": ("PRIMITIVE_AXES", "--pa", "value"), "cell": ("CELL_FILENAME", "-c", "value"),
     "create_displacements": ("CREATE_DISPLACEMENTS", "-d", "true"), "amplitude": ("DISPLACEMENT_DISTANCE", "--amplitude", "value"),
     "pm": ("PM", "--pm", "true"), "nodiag": ("DIAG", "--nodiag", "false"),
+    "rd": ("RANDOM_DISPLACEMENTS", "--rd", "value"), "random_seed": ("RANDOM_SEED", "--random-seed", "value"),
     "mesh": ("MESH", "--mesh", "value"), "mp_shift": ("MP_SHIFT", None, "value"), "gc": ("GAMMA_CENTER", "--gc", "true"), "nomeshsym": ("MESH_SYMMETRY", "--nomeshsym", "false"),
     "eigvecs": ("EIGENVECTORS", "--eigvecs", "true"), "gv": ("GROUP_VELOCITY", "--gv", "true"), "nowritemesh": ("WRITE_MESH", "--nowritemesh", "false"),
     "band": ("BAND", "--band", "value"), "band_points": ("BAND_POINTS", "--band-points", "value"), "band_connection": ("BAND_CONNECTION", "--band-connection", "true"),
@@ -307,7 +308,14 @@ def gen_spec(seed, index, tier):
     steps = []
     wrote_fc = False
     stale_planned = index % 2 == 1
-    for _ in range(rng.randint(1, 3)):
+    random_disp = rng.random() < 0.1
+    if random_disp:
+        # random displacements of all atoms with a stated seed: the workflow ends after this step (no solver for such datasets here)
+        disp.pop("pm", None)
+        disp.pop("nodiag", None)
+        disp["rd"] = rng.choice([2, 3])
+        disp["random_seed"] = rng.choice([0, 0, 17, 12345])
+    for _ in range(0 if random_disp else rng.randint(1, 3)):
         st = gen_post_step(rng, w, has_born, wrote_fc, force_cmd=("phonopy" if stale_planned else None))
         if st["mode"] == "writefc":
             wrote_fc = st["settings"].get("writefc_format", st["settings"].get("fc_format", "text"))
@@ -777,6 +785,18 @@ def execute(spec):
             smat = [int(x) for x in spec["dim"].split()]
             smat = np.diag(smat) if len(smat) == 3 else np.reshape(smat, (3, 3))
             ref = Phonopy(ucell, supercell_matrix=smat, primitive_matrix=(spec["pa"].lower() if spec["pa"] == "AUTO" else spec["pa"]), log_level=0)
+            if "rd" in d:
+                ref.generate_displacements(distance=float(d.get("amplitude", get_default_displacement_distance(calc))), number_of_snapshots=int(d["rd"]), random_seed=int(d["random_seed"]))
+                py = PhonopyYaml()
+                py.read("phonopy_disp.yaml")
+                got_d = None if py.dataset is None or "displacements" not in py.dataset else np.array(py.dataset["displacements"])
+                want_d = np.array(ref.dataset["displacements"])
+                if got_d is None or got_d.shape != want_d.shape:
+                    V("cli-differs-from-library", "disp:random-displacements:shape", cli=None if got_d is None else list(got_d.shape), lib=list(want_d.shape))
+                elif float(np.max(np.abs(got_d - want_d))) > 1e-15:
+                    V("cli-differs-from-library", "disp:random-displacements", maxdiff=float(np.max(np.abs(got_d - want_d))), random_seed=d["random_seed"], argv=rA["argv"])
+                probes["random_displacement_step"] = 1
+                return _result(spec, violations, faults, probes, log, steps_d, tag_hits, True)
             ref.generate_displacements(distance=float(d.get("amplitude", get_default_displacement_distance(calc))), is_plusminus=(True if d.get("pm") else "auto"), is_diagonal=not d.get("nodiag", False))
             py = PhonopyYaml()
             py.read("phonopy_disp.yaml")
